@@ -223,7 +223,9 @@ def u_unapply(c):
 
 XH_SETS = [{}, {"X-Real-Ip": "4.4.4.4"}, {"X-Forwarded-For": "5.5.5.5"}, {"X-Forwarded-For": "6.6.6.6, 127.0.0.1"}, {"X-Real-Ip": "not an ip"}, {"X-Real-Ip": "2001:db8::1"},
            {"X-Scheme": "https"}, {"X-Forwarded-Proto": "http"}, {"X-Real-Ip": "4.4.4.4", "X-Scheme": "http"}, {"X-Real-Ip": "4.4.4.4", "X-Scheme": "https"},
-           {"X-Forwarded-For": "5.5.5.5", "X-Forwarded-Proto": "https"}, {"X-Scheme": "gopher"}]
+           {"X-Forwarded-For": "5.5.5.5", "X-Forwarded-Proto": "https"}, {"X-Scheme": "gopher"},
+           # an address header that is present but unusable next to a usable scheme header (and the other way round): each field is restored on its own
+           {"X-Real-Ip": "10.0.0.300", "X-Scheme": "https"}, {"X-Forwarded-For": "unknown", "X-Forwarded-Proto": "https"}, {"X-Real-Ip": "4.4.4.4", "X-Scheme": "gopher"}]
 
 
 @unit("C32", "context.lifecycle", [(M, "_HTTPRequestContext.__init__"), (M, "_HTTPRequestContext._apply_xheaders"), (M, "_HTTPRequestContext._unapply_xheaders")],
